@@ -168,6 +168,11 @@ def build_argv(sub, expr, doc_bytes, opts, tag):
 
 def judge(stats: Stats, sub, expr, doc_bytes, opts, tag, real=False):
     case = {"sub": sub, "expr": expr, "doc": doc_bytes.decode("latin-1"), "opts": opts}
+    if opts.get("expr_file") and sub != "patch" and (expr != expr.strip() or "\r" in expr):
+        # an expression file is read in text mode and stripped: blank space at its ends is not part of the expression and a
+        # lone CR inside it is read as LF, so the library call it corresponds to is not the one on `expr`
+        stats.excluded["expression file whose text the tool does not read verbatim (outer blanks / CR)"] += 1
+        return "skipped"
     want = lib_call(sub, expr, doc_bytes, opts)
     if want[0] == "foreign":
         stats.excluded["library raised a foreign exception (C06): %s" % type(want[1]).__name__] += 1
@@ -220,10 +225,10 @@ def judge(stats: Stats, sub, expr, doc_bytes, opts, tag, real=False):
                    "json %s: the library raises %s: %s; the tool %s instead of exiting 1 with a message" % (
                        " ".join(argv), kind, short(str(want[1]), 100), ("let %r escape (traceback)" % exc) if exc is not None else "exited %s" % code))
         return "bad"
-    msg = err.strip("\n")
+    msg = err[:-1] if err.endswith("\n") else err
     if not msg.strip():
         stats.fail("cli:%s:error-no-message:%s" % (sub, kind), case, "exit 1 without a message on stderr")
-    elif "\n" in msg or "Traceback" in msg:
+    elif "\n" in msg or "\r" in msg or "Traceback" in msg:  # a carriage return ends a line too (universal newlines, terminals)
         stats.fail("cli:%s:error-message-not-one-line:%s" % (sub, kind), case, "stderr is %r" % msg[:200])
     return "err"
 
@@ -236,9 +241,9 @@ QUERIES_OK = ["$", "$.a", "$.a[*]", "$..b", "$.a[?@ > 1]", "$.a[?@.b == 'x']", "
 QUERIES_BAD = ["$[", "$.a[?", "$[?@.a ==]", "$.a[?length(@.*) > 1]", "$[?count(1) > 1]", "$[?foo(@)]", "$[?nosuch(@.a) == 1]", "$[9007199254740992]", "$[01]", "$['a',]",
                "$[?@.a == 'x", "$..", "$[?@ =~ /(/]", "$[1e400]", "$[?!length(@)]", "$[?1e400 == @]",
                # rejected inputs that carry line breaks of their own: the message must still be one line
-               "$[?@.a 'x\ny' == 1]", "$[?'a\nb']", "$.a\n&", "$[?@.a\n===\n1]", "$[?@ == 1 'l1\r\nl2']", "$.a |\n", "$['a\nb' 'c']"]
+               "$[?@.a 'x\ny' == 1]", "$[?'a\nb']", "$.a\n&", "$[?@.a\n===\n1]", "$[?@ == 1 'l1\r\nl2']", "$.a |\n", "$['a\nb' 'c']", "$[?@.a 'x\ry' == 1]", "$.a\r&", "$['a\rb' 'c']"]
 POINTERS_OK = ["", "/a", "/a/0", "/a/2/b", "/b/c/1", "/e", "/1/0", "/s", "/e%20f", "/caf%C3%A9/0", "/p%25q", "/e f", "/caf\u00e9", "/\\u0061/0", "/\\u0062", "/\\u0073"]
-POINTERS_BAD = ["/zz", "/a/9", "/a/-", "/s/0", "a", "/a/x", "/b/c/2", "/a/01", "/\\u12", "/%zz", "/z\nz", "a\nb", "/a/1\n", "/a/\r\n0"]
+POINTERS_BAD = ["/zz", "/a/9", "/a/-", "/s/0", "a", "/a/x", "/b/c/2", "/a/01", "/\\u12", "/%zz", "/z\nz", "a\nb", "/a/1\n", "/a/\r\n0", "/a/\r0", "/s/x\ry", "/z\rz", "a\rb"]
 PATCHES_OK = [[{"op": "add", "path": "/n", "value": 1}], [{"op": "remove", "path": "/a/0"}], [{"op": "replace", "path": "/e", "value": [1]}],
               [{"op": "move", "from": "/a/0", "path": "/b/m"}], [{"op": "copy", "from": "/b", "path": "/a/-"}], [{"op": "test", "path": "/a/0", "value": 1}],
               [], [{"op": "add", "path": "", "value": {"x": 1}}], [{"op": "add", "path": "/a/3", "value": "é"}],
@@ -247,7 +252,8 @@ PATCHES_OK = [[{"op": "add", "path": "/n", "value": 1}], [{"op": "remove", "path
 PATCHES_BAD = [[{"op": "remove", "path": "/zz"}], [{"op": "test", "path": "/a/0", "value": 2}], [{"op": "nope", "path": "/a"}], [{"op": "add", "path": "/a"}],
                [{"path": "/a"}], {"op": "add"}, "text", 5, [{"op": "add", "path": "a", "value": 1}], [{"op": "add", "path": "/a/9", "value": 1}], [1],
                [{"op": "rem\nove", "path": "/a"}], [{"op": "remove", "path": "/z\nz"}], [{"op": "add", "path": "a\nb", "value": 1}],
-               [{"op": "move", "from": "/z\r\nz", "path": "/a/0"}], [{"op": "test", "path": "/a/0", "value": "l1\nl2"}]]
+               [{"op": "move", "from": "/z\r\nz", "path": "/a/0"}], [{"op": "remove", "path": "/a/\r0"}], [{"op": "re\rmove", "path": "/a"}],
+               [{"op": "add", "path": "/s/x\ry", "value": 1}], [{"op": "test", "path": "/a/0", "value": "l1\nl2"}]]
 DOCS_BAD = [b"{", b"[1,", b"", b"\xff\xfe{}", b'{"a": \xc3\x28}', b"nul"]
 
 
